@@ -27,7 +27,9 @@ def timed_source(rng):
         for _ in range(rng.randrange(1, 6)):
             r = rng.random()
             if r < 0.5:
-                m = rng.randint(1, 40); b = rng.randint(1, num); t = rng.randint(0, max(0, beat - 1))
+                # (measures far out too: delta times of three and four bytes, up to the four-byte limit of the format)
+                m = rng.randint(1, 40) if rng.random() < 0.85 else rng.choice([200, 5462, 5463, 6000, 30000, min(268435455 // max(1, beat * num) - 1, 600000)])
+                b = rng.randint(1, num); t = rng.randint(0, max(0, beat - 1))
                 parts.append("TIME(%d:%d:%d) %s" % (m, b, t, rng.choice(["c", "d8", "e2", "n60,4", "y7,100;", "@3;"])))
                 if tr == 0: placed.append((m, b, t))
             elif r < 0.54:
